@@ -120,7 +120,7 @@ fn build(ch: &mut Chooser, family: &str) -> (&'static str, Vec<u8>, String, bool
             let n = 3 + extra;
             let keyinfo = ch.flag("manifest-keyinfo-element-first(OpenPGP)");
             let enc: Vec<usize> = match which { 0 => vec![1], 1 => vec![2], 2 => vec![n - 1], 3 => (1..n).collect(), _ => vec![1, n - 1] };
-            let book = ods::OBook { sheets: vec![ods::OSheet { name: "S".into(), rows: vec![ods::ORow { cells: vec![(ods::OCell::new(ods::OVal::Float("1".into(), "float")), 1)], repeat: 1 }], display: None }], encrypted_entries: enc.clone(), extra_manifest_entries: extra, manifest_keyinfo: keyinfo, manifest_comments: ch.flag("manifest-with-comments-and-line-breaks"), ..Default::default() };
+            let book = ods::OBook { sheets: vec![ods::OSheet { name: "S".into(), rows: vec![ods::ORow { cells: vec![(ods::OCell::new(ods::OVal::Float("1".into(), "float")), 1)], repeat: 1 }], display: None }], encrypted_entries: enc.clone(), extra_manifest_entries: extra, manifest_keyinfo: keyinfo, manifest_comments: ch.flag("manifest-with-comments-and-line-breaks"), manifest_end_tags: ch.flag("manifest-plain-entries-with-explicit-end-tags"), ..Default::default() };
             // the content of an encrypted package is ciphertext
             ("ods", ods::write_with_content(&book, &cipher(700, 11), if ch.flag("zip-stored") { Method::Stored } else { Method::Deflated }), format!("ods manifest with {n} entries, encryption-data on {enc:?}, keyinfo first: {keyinfo}"), true)
         }
@@ -138,10 +138,18 @@ fn build(ch: &mut Chooser, family: &str) -> (&'static str, Vec<u8>, String, bool
                     let mut stream = biff8::workbook_stream(&book);
                     if ch.flag("workbook-in-regular-sectors") && stream.len() < 4096 { stream.resize(4096, 0); }
                     let mut e = vec![cfb::Entry::stream("Workbook", stream, None)];
+                    // an embedded, password-protected OOXML document (an OLE object of the sheet): its storage holds EncryptedPackage
+                    // and EncryptionInfo streams, the workbook itself is not encrypted
+                    if ch.flag("embedded-ole-object-that-is-an-encrypted-ooxml-document") {
+                        e.push(cfb::Entry::storage("MBD0001A2B3", None));
+                        let at = e.len() - 1;
+                        e.push(cfb::Entry::stream("EncryptionInfo", { let mut v = vec![4, 0, 4, 0, 0x40, 0, 0, 0]; v.extend(cipher(900, 21)); v }, Some(at)));
+                        e.push(cfb::Entry::stream("EncryptedPackage", { let mut v = 5000u64.to_le_bytes().to_vec(); v.extend(cipher(5000, 22)); v }, Some(at)));
+                    }
                     if ch.flag("summary-streams") { e.push(cfb::Entry::stream("\u{5}SummaryInformation", cipher(300, 12), None)); e.push(cfb::Entry::stream("\u{5}DocumentSummaryInformation", cipher(5000, 13), None)); }
                     cfb::write(&e, &layout(ch))
                 }
-                _ => ods::write(&ods::OBook { sheets: vec![ods::OSheet { name: "S".into(), rows: vec![ods::ORow { cells: vec![(ods::OCell::new(ods::OVal::StrContent("encryption-data".into(), ods::SpaceMode::TextS, false)), 1)], repeat: 1 }], display: None }], extra_manifest_entries: ch.choose("manifest-extra-entries", 3), ..Default::default() }, if ch.flag("zip-stored") { Method::Stored } else { Method::Deflated }),
+                _ => ods::write(&ods::OBook { sheets: vec![ods::OSheet { name: "S".into(), rows: vec![ods::ORow { cells: vec![(ods::OCell::new(ods::OVal::StrContent("encryption-data".into(), ods::SpaceMode::TextS, false)), 1)], repeat: 1 }], display: None }], extra_manifest_entries: ch.choose("manifest-extra-entries", 3), manifest_end_tags: ch.flag("manifest-plain-entries-with-explicit-end-tags"), manifest_comments: ch.flag("manifest-with-comments-and-line-breaks"), ..Default::default() }, if ch.flag("zip-stored") { Method::Stored } else { Method::Deflated }),
             };
             let reader: &'static str = match fmt { "xlsx" => ch.pick("reader-position-at-open", &["xlsx", "xlsx@8", "xlsx@end"]), "xlsb" => ch.pick("reader-position-at-open", &["xlsb", "xlsb@8", "xlsb@end"]), f => f };
             (reader, bytes, format!("unencrypted {reader}"), false)
@@ -192,7 +200,7 @@ fn huge_package(rep: &Report) {
 pub fn check(rep: &Report) {
     let t = crate::thorough(&rep.tier);
     huge_package(rep);
-    rep.rule("encrypted OOXML: EncryptedPackage of {8, 4095, 4096, 4097, 5000, 70000} bytes x EncryptionInfo {standard, agile, agile > 4096 bytes, absent, extensible 3.3 / 4.3} x DataSpaces storage present/absent x CFB layouts (v3/v4, 5 sector orders, mini order, unused entries, directory order, free sectors), opened with Xlsx and Xlsb from a reader positioned at the start, after the 8 magic bytes or at the end; BIFF: FILEPASS of 5 kinds (BIFF8 RC4, XOR obfuscation, CryptoAPI v2/v4; the 4-byte BIFF5 XOR form in a Book stream) directly after BOF or after WRITEPROTECT, record bodies garbled, mini stream or regular sectors, CFB layouts; ods: manifests (plain, or with comments and line breaks between and inside the entries) with 3-5 entries and encryption-data on the first, a middle, the last, all or several entries, ciphertext content; converse: unencrypted workbooks of all four formats (xlsx under every encoding of C01, xls under CFB layouts with extra streams, names and strings that spell 'EncryptedPackage' / 'FILEPASS' / 'encryption-data') must open; full product for ods, <= 4 deviations (thorough: full product) for ooxml, biff and plain; non-trivial = non-default choice");
+    rep.rule("encrypted OOXML: EncryptedPackage of {8, 4095, 4096, 4097, 5000, 70000} bytes x EncryptionInfo {standard, agile, agile > 4096 bytes, absent, extensible 3.3 / 4.3} x DataSpaces storage present/absent x CFB layouts (v3/v4, 5 sector orders, mini order, unused entries, directory order, free sectors), opened with Xlsx and Xlsb from a reader positioned at the start, after the 8 magic bytes or at the end; BIFF: FILEPASS of 5 kinds (BIFF8 RC4, XOR obfuscation, CryptoAPI v2/v4; the 4-byte BIFF5 XOR form in a Book stream) directly after BOF or after WRITEPROTECT, record bodies garbled, mini stream or regular sectors, CFB layouts; ods: manifests (plain, or with comments and line breaks between and inside the entries) with 3-5 entries and encryption-data on the first, a middle, the last, all or several entries, ciphertext content; converse: unencrypted workbooks of all four formats (xlsx under every encoding of C01, xls under CFB layouts with extra streams or an embedded encrypted OOXML object, names and strings that spell 'EncryptedPackage' / 'FILEPASS' / 'encryption-data') must open; full product for ods, <= 4 deviations (thorough: full product) for ooxml, biff and plain; non-trivial = non-default choice");
     rep.assume("ciphertext is pseudo-random bytes; EncryptedPackage starts with its 8-byte size prefix");
     let stats = Mutex::new(Stats::default());
     ["ooxml", "biff", "ods", "plain"].par_iter().for_each(|fam| {
